@@ -60,6 +60,16 @@ Msgs(out) ==
       F(i) == IF i > Len(out) THEN <<>> ELSE out[i].msgs \o F(i + 1)
   IN F(1)
 
+\* messages of `ms` not yet in `have` (a resent flight adds nothing; `same` only tells a resend from the original)
+Plainly(m) == [m EXCEPT !.same = FALSE]
+NewMsgs(have, ms) ==
+  LET H == {Plainly(have[i]) : i \in 1..Len(have)}
+      RECURSIVE F(_, _)
+      F(i, seen) == IF i > Len(ms) THEN <<>>
+                    ELSE IF Plainly(ms[i]) \in seen THEN F(i + 1, seen)
+                    ELSE <<Plainly(ms[i])>> \o F(i + 1, seen \cup {Plainly(ms[i])})
+  IN F(1, H)
+
 IsPrefix(p, s) == Len(p) <= Len(s) /\ \A i \in 1..Len(p) : p[i] = s[i]
 
 FreshEp(c) ==
@@ -121,7 +131,7 @@ THs ==
                /\ ep' = [ep EXCEPT ![e] = r.s]
                /\ pend' = [pend EXCEPT ![e] = IF Ev.disp # "model" /\ ("MustResend" \in Props \/ "FlightContent" \in Props)
                                                THEN Labels(r.out) ELSE <<>>]
-               /\ sent' = [sent EXCEPT ![e] = @ \o Msgs(r.out)]
+               /\ sent' = [sent EXCEPT ![e] = @ \o NewMsgs(@, Msgs(r.out))]
   /\ l' = l + 1
   /\ UNCHANGED kh
 
